@@ -914,6 +914,34 @@ def buffer_trace_tie(ctx):
             else:
                 toks.append(op[0])
         lines.append('pbuf.run ' + ' '.join(toks))
+    # the model's OWN statement of the sequence (C01BufferFrame.readPacketOps, printed by `pbuf.rp`) against
+    # the recorded one, token by token; parameters (segments, length of the data-length VarInt, inflated
+    # packet, parser reads) are taken from the live trace
+    rp_reqs = []
+    for tr, comp, end in jobs:
+        kinds = ''.join('a' if (op[0] == 'r' and op[1] is None) else op[0] for op in tr)
+        if not shape.match(kinds):
+            rp_reqs.append(None)
+            continue
+        c1 = kinds.index('c')
+        segs = [op[1] for op in tr[:c1] if op[0] == 's']
+        after = tr[c1 + 1:]
+        comp_tok = '-'
+        if 'aRsc' in kinds:
+            a = kinds.index('aRsc')
+            comp_tok = '%d:%s' % (a - c1 - 1, hx(tr[a + 2][1]))
+            after = tr[a + 4:]
+        rp_reqs.append('pbuf.rp %s %s %s' % (comp_tok, ' '.join('v:' + hx(v) for v in segs),
+                                             ' '.join('n:*' if op[1] is None else 'n:%d' % op[1] for op in after)))
+    rp_ans = iter(ctx.driver.ask([r for r in rp_reqs if r]))
+    for (tr, comp, end), line, req in zip(jobs, lines, rp_reqs):
+        if req is None:
+            continue
+        m = next(rp_ans)
+        ctx.count('buffer_trace_tie.ops-compared')
+        if m != line[len('pbuf.run '):]:
+            ctx.disagree('pbuf.rp (readPacketOps) vs the operations the real read_packet issued', req[:400], m[:300],
+                         line[len('pbuf.run '):][:300])
     for (tr, comp, end), line, m in zip(jobs, lines, ctx.driver.ask(lines)):
         kinds = ''.join('a' if (op[0] == 'r' and op[1] is None) else op[0] for op in tr)
         outs = [op[-1] for op in tr if op[0] in 'rg']
